@@ -254,6 +254,10 @@ class Built:
             if t[1] not in self.flats:
                 self.flats[t[1]] = concatenate(self.term(t[2]))
             return self.flats[t[1]]
+        if k == 'subq':
+            # a sub-query used as an OPERAND: ('subq', 'an'|'the', vid, cond...)
+            quant = the if t[1] == 'the' else an
+            return quant(entity(self.vars[t[2]], *[self.cond(c) for c in t[3:]]))
         raise ValueError(t)
 
     def cond(self, c):
